@@ -148,6 +148,13 @@ Deliver(m) ==
           ELSE /\ net' = Take(m)
                /\ UNCHANGED <<cli, grown, pc, tries, nexp, segs, sent, result>>
 
+\* a segment (a duplicate, a straggler of an abandoned attempt) that arrives after the transfer has
+\* returned: the request is finished, nothing may change any more and nothing is sent
+LateDeliver(m) ==
+  /\ pc = "done" /\ m.t = "V" /\ net[m] > 0
+  /\ net' = Take(m)
+  /\ UNCHANGED <<req, cli, grown, pc, tries, nexp, segs, sent, result, faults>>
+
 \* no (acceptable) segment arrived within the protocol timeout
 Timeout ==
   /\ pc = "wait"
@@ -177,6 +184,7 @@ Next == \/ (ClientSend /\ A("ClientSend", U))
         \/ (Timeout /\ A("Timeout", U))
         \/ (SpaServe /\ A("SpaServe", U))
         \/ \E m \in DOMAIN net : \/ (Deliver(m) /\ A("Deliver", m))
+                                  \/ (LateDeliver(m) /\ A("LateDeliver", m))
                                   \/ (Drop(m) /\ A("Drop", m))
                                   \/ (Dup(m) /\ A("Dup", m))
 
